@@ -41,7 +41,10 @@ def run(ctx):
     ctx.guard('W-SAME', 'overrides', check_same, ctx, w)
     ctx.floor('W-SAME', 8)
     ctx.guard('E-i', 'symbols', check_symbols, ctx, w)
-    ctx.floor('E-i', 6)
+    # symbol count recovery through the hash tables (formulas and walk conditions shared with C03)
+    from props import C03
+    ctx.guard('E-i', 'hash count recovery', C03.check_hash, ctx, w)
+    ctx.floor('E-i', 30)
     ctx.guard('H-CUR', 'cursor', hrules.run_h, ctx, w, [DYN])
     ctx.guard('G-LIT', 'literals', literals.glit, ctx, w, [DYN])
     ctx.floor('G-LIT', 20)
